@@ -122,7 +122,7 @@ fn histories<'a>(env: &'a Env, thorough: bool) -> Vec<History<'a>> {
 /// lists a block which is not on the final chain, either starting after the fork point (the
 /// rollback has to remove those) or at / below it (a record spanning the fork point: C04's
 /// recorded finding, the rollback keeps it by design of the repository's reorg tests).
-fn stall_cause(sim: &Sim, final_chain: usize) -> String {
+pub(crate) fn stall_cause(sim: &Sim, final_chain: usize) -> String {
     if sim.world.chains.len() < 2 {
         return String::new();
     }
